@@ -1,9 +1,12 @@
 (* Corr/C05.v — duplicate keys under the five merge strategies: the tables the implementation
    ends with against the model of the IntegrityError dispatch / _do_merge. *)
 From GV Require Export Corr.Import.
+From GV Require Model.GtfSpec.
 Open Scope Z_scope.
 
-Inductive case := Case (strat : strategy) (force : list field) (feats : list row) (impl : result tables).
+Inductive case :=
+| Case (strat : strategy) (force : list field) (feats : list row) (impl : result tables)
+| CaseGtf (strat : strategy) (force : list field) (feats : list row) (impl : result tables).   (* GTF importer, inference off *)
 
 Definition IDK : str := [73;68]%N.
 Definition id_clean (s : str) : bool := negb (existsb (fun c => N.eqb c 9 || N.eqb c 10 || N.eqb c 13) s).
@@ -15,6 +18,17 @@ Definition verdict (c : case) : Z :=
   | Case strat force feats impl =>
     match feats with [] => V_OUT | _ =>
     let m := import_gff call_table strat force (SList [KAttr IDK]) feats empty_st in
+    match m with
+    | Err EOther => V_OUT
+    | _ =>
+      if negb (match m with Ok st => forallb (fun r => id_clean (r_id r)) (s_rows st) | _ => true end) then V_OUT else
+      if res_matches (is_merge strat) m impl then V_OK else V_BAD
+    end
+    end
+  | CaseGtf strat force feats impl =>
+    match feats with [] => V_OUT | _ =>
+    let g := mkGtf GtfSpec.TRANSCRIPT_ID GtfSpec.GENE_ID [101;120;111;110]%N true true in
+    let m := import_gtf call_table g strat force GtfSpec.default_gtf_spec feats empty_st in
     match m with
     | Err EOther => V_OUT
     | _ =>
